@@ -452,7 +452,7 @@ func schedAccount(c *fw.Ctx, x *sched.Explorer, name string) {
 		c.HarnessError("%s %s: %s", c.Prop, name, d)
 	}
 	if st.Deadlines > 0 {
-		c.HarnessError("%s %s: %d executions hit the watchdog", c.Prop, name, st.Deadlines)
+		c.HarnessError("%s %s: %d executions hit the watchdog (first at schedule %v)", c.Prop, name, st.Deadlines, st.DeadlineAt)
 	}
 	if st.Nondeterministic {
 		c.HarnessError("%s %s: replaying the default schedule gave a different execution (uncaptured nondeterminism)", c.Prop, name)
